@@ -3,8 +3,8 @@
 Programs (ctx.choice): multi-agent skeletons with 2 agents (A1: private l, public q, optionally n:int[0,3]; A2: l, m, p(T) over
 objects o1,o2), an environment fluent e; A1 has one or two actions whose precondition and effect conditions are
 drawn from a pool of templates (own fluents unqualified, the other agent's through Dot, environment fluent,
-negation, disjunction, implication, numeric comparison), A2 has a parameterised action; Dot goals (problem level)
-and agent goals.
+negation, disjunction, implication, numeric comparison), A2 has a parameterised action; Dot goals (problem level;
+agent-specific goals are outside the supported kind of both compilers).
 Real code: MAConditionalEffectsRemover.compile / MADisjunctiveConditionsRemover.compile and the result's
 map_back_action_instance (called on every compiled ground action instance to group the variants by original).
 Solver: RefMA (vf/refsem_ma.py) on both sides over ONE shared fresh symbolic state (all type-correct states, not only
@@ -34,8 +34,8 @@ FUNCTIONS = [
 BOUNDS = ("2 agents; fluents: environment e:bool; A1: l:bool (private), q:bool (public), n:int[0,3] (optional); A2: l:bool, m:bool (public), "
           "p(T):bool over o1,o2; A1: 1-2 actions with <= 3 effects (Boolean set/reset, conditional, increase / assignment of n, effect on "
           "the environment fluent), A2: one action with parameter x:T; "
-          "precondition and the two effect-condition slots range over a pool of 9 condition templates; 4 goal sets "
-          "(Dot goals, disjunctive goals, agent public/private goals); all type-correct total states")
+          "precondition and the two effect-condition slots range over a pool of 9 condition templates; 4 problem-level goal sets "
+          "(Dot goals, negated, disjunctive; agent-specific goals are outside the supported kind of both compilers); all type-correct total states")
 OUTSIDE = "more agents/fluents; durative actions; states with undefined fluents; quantified conditions; real-valued fluents"
 ASSUMPTIONS = ["RefMA (vf/refsem_ma.py): an agent's action reads its own fluents unqualified, environment fluents unqualified and other agents' "
                "fluents through Dot; step semantics inherited from R (tied to the simulator by C01)",
@@ -193,7 +193,7 @@ def h_ma(ctx, compiler, eff_i, second=False, pres=None, conds=None):
     from unified_planning.engines import CompilationKind
     from unified_planning.engines.compilers.ma_conditional_effects_remover import MAConditionalEffectsRemover
     from unified_planning.engines.compilers.ma_disjunctive_conditions_remover import MADisjunctiveConditionsRemover
-    from unified_planning.exceptions import UPConflictingEffectsException, UPProblemDefinitionError, UPTypeError
+    from unified_planning.exceptions import UPConflictingEffectsException, UPTypeError
     from unified_planning.plans import ActionInstance
     from vf.refsem_ma import RefMA
 
@@ -215,12 +215,9 @@ def h_ma(ctx, compiler, eff_i, second=False, pres=None, conds=None):
     else:
         comp, ck = MADisjunctiveConditionsRemover(), CompilationKind.DISJUNCTIVE_CONDITIONS_REMOVING
     ctx.assume(comp.supports(prob.kind))
-    try:
-        res = comp.compile(prob, ck)
-    except UPProblemDefinitionError:
-        # documented: raised when a conditional effect cannot be removed without changing the semantics
-        ctx.note("rejected", g.desc)
-        ctx.assume(False)
+    # no program of this family is rejected on the pinned tree (the documented UPProblemDefinitionError concerns timed effects only):
+    # an exception escaping compile is reported, not pruned
+    res = comp.compile(prob, ck)
     cp = res.problem
     ctx.note("program", g.desc)
     box = {}
